@@ -400,7 +400,7 @@ func runC36(p *core.Prog, r *core.Report) {
 		r3.Bad(name+"#return-list!something-new", p.Pos(fn.Pos()), "newAlphabetList never returns a list")
 	}
 	// ---------------- R4 updateInnerRing
-	r4 := r.Rule("C36.R4", "updateInnerRing: equal lengths required; after[j] only under innerRing[i].Equal(before[j]); one append per inner-ring key", 3)
+	r4 := r.Rule("C36.R4", "updateInnerRing: equal lengths required; after[j] only under innerRing[i].Equal(before[j]); one append per inner-ring key; a key is kept unchanged only after the comparison with every before[j]", 3)
 	ufn := p.Func("pkg/innerring/processors/governance.updateInnerRing")
 	if ufn == nil {
 		r.Fatalf("C36.R4: updateInnerRing not found")
@@ -497,6 +497,28 @@ func runC36(p *core.Prog, r *core.Report) {
 		}
 		ok := hdr != nil && !reachesAvoiding(repl[0].Block(), keep[0].Block(), map[*ssa.BasicBlock]bool{hdr: true}, nil)
 		r4.Check(ok, uname+"#one-append-per-key", p.InstrPos(repl[0]), "after a replacement the outer loop continues with the next key", "after appending the replacement the same inner-ring key can also be appended unchanged (duplicate, list grows)")
+		// a key is kept as it is only after it was compared with EVERY before[j]: the positional substitution is a
+		// permutation of the sorted lists only when it is applied to every key that has a position in 'before'
+		var inner *ssa.BasicBlock
+		for _, bb := range ufn.Blocks {
+			for _, in2 := range bb.Instrs {
+				ec, isC := in2.(*ssa.Call)
+				if !isC || !strings.HasSuffix(core.CalleeName(ec), "keys.PublicKey).Equal") {
+					continue
+				}
+				for _, h := range ufn.Blocks {
+					if h == hdr || !h.Dominates(bb) || !reaches(bb, h) || inner != nil && !inner.Dominates(h) {
+						continue
+					}
+					for _, pr := range h.Preds {
+						if h.Dominates(pr) {
+							inner = h
+						}
+					}
+				}
+			}
+		}
+		r4.Check(inner != nil && inner.Dominates(keep[0].Block()), uname+"#kept-only-when-no-position-in-before", p.InstrPos(keep[0]), "a key is appended unchanged only after the comparison loop over 'before' was entered for it", "an inner-ring key can be appended unchanged without having been compared with the 'before' list: a key with a position in 'before' keeps its place while another key is moved onto it (duplicate in the derived list, the incoming key never enters it)")
 	} else {
 		r4.Bad(uname+"#one-append-per-key", p.Pos(ufn.Pos()), fmt.Sprintf("expected one replacing and one keeping append, found %d and %d", len(repl), len(keep)))
 	}
